@@ -183,7 +183,7 @@ def evaluate_case(ctx, pool, case):
         if cr[0] == "terminated" or "out of memory" in cr[2].lower():
             return ("driver-terminated:%s:%s" % (case["shape"], cr[1][:60]), info + "\n" + cr[2][-1500:]), None
         # a memory error while a limit should have stopped the evaluation: the evaluation left its physical bounds
-        return ("memory-error:%s:%s" % (case["shape"], cr[1][:60]), info + "\n" + cr[2][:2500]), None
+        return ("memory-error:%s:%s" % (case["shape"], cr[1][:60]), info + "\n" + cr[2][:14000]), None
     ld = res.step(0)
     if not ld or ld.get("st") != "ok":
         return ("shape-rejected:" + case["shape"], info + res.stderr[-800:]), None
